@@ -741,6 +741,14 @@ func TestProp(t *testing.T) {
 						s := gen(rng, 7)
 						for j := range s { // distinct values: every rearrangement is visible
 							s[j] = s[j]*10 + j
+							// uniform inputs for the predicate helpers: all elements accepted (a
+							// "nothing to drop, hand back the argument" shortcut) / all rejected
+							switch i % 5 {
+							case 3:
+								s[j] *= 2
+							case 4:
+								s[j] = s[j]*2 + 1
+							}
 						}
 						c.S = append(c.S, s)
 					}
